@@ -185,3 +185,37 @@ Arguments forward_code {R} rO radd rmul conj N1 w1 Ninv1 N2 w2 Ninv2 sN objf H W
 Arguments forward_ref {R} rO radd rmul conj N1 w1 Ninv1 N2 w2 Ninv2 sN obj2 H W r0 c0 rr rc props probes _ _.
 Arguments scale_modes {R} rmul c probes.
 Arguments total_probe_intensity {R} rO radd rmul conj N1 N2 probes.
+
+(* ================================================================== round-3 additions *)
+(* `no_shift` origin of the repaired preprocessing: com_fit = roi // 2, the zero-frequency pixel of
+   the fftshift convention, for even AND odd detector sizes (fixes/C02-no-shift-odd-roi.diff) *)
+Definition no_shift_origin (n : Z) : Z := n / 2.
+
+Section ForwardExt.
+  Variable R : Type.
+  Variable rmul : R -> R -> R.
+
+  (* second step of _apply_weights: mode m is multiplied by its own factor d_m *)
+  Fixpoint scale_modes_w (ds : list R) (probes : list (img R)) : list (img R) :=
+    match ds, probes with
+    | d :: ds', p :: ps' => ((fun i j => rmul d (p i j)) : img R) :: scale_modes_w ds' ps'
+    | _, _ => []
+    end.
+
+  (* _apply_weights as the code runs it: the common factor first, then the per-mode factors *)
+  Definition apply_weights_code (c : R) (ds : list R) (probes : list (img R)) : list (img R) :=
+    scale_modes_w ds (scale_modes rmul c probes).
+
+  (* potential object (_get_obj_patches on a real array): transmission e (V r c), e = exp(i .);
+     P is the type of phases *)
+  Variable P : Type.
+  Definition pot_obj (e : P -> R) (V : Z -> Z -> P) : Z -> Z -> R := fun r c => e (V r c).
+  Definition phase_img (e : P -> R) (kappa : nat -> nat -> P) : img R := fun k1 k2 => e (kappa k1 k2).
+  Definition phase_ramp (e : P -> R) (phi : nat -> P) : nat -> R := fun k => e (phi k).
+End ForwardExt.
+
+Arguments scale_modes_w {R} rmul ds probes.
+Arguments apply_weights_code {R} rmul c ds probes.
+Arguments pot_obj {R P} e V _ _.
+Arguments phase_img {R P} e kappa _ _.
+Arguments phase_ramp {R P} e phi _.
